@@ -15,6 +15,26 @@ FIELDS = {
   'self.running_actions': 'set[str]',
 }
 
+# plen(queue, a, action_iteration): length of the maximal prefix of the queue made of members of a's
+# iteration.  A total function of its three arguments, characterised uniquely by the three axioms below
+# (they are evaluated natively against the executable definition on every enumerated case).
+PLEN_UF = {'plen': (['list[str]', 'str', 'dict[str,str]'], 'int')}
+PL = 'plen(self.actions_to_run, one_action, self.action_iteration)'
+PLEN_AXIOMS = [
+    "0 <= PL and PL <= len(self.actions_to_run)".replace('PL', PL),
+    "all(sameiter(self.actions_to_run[k]) for k in range(PL))".replace('PL', PL),
+    "implies(PL < len(self.actions_to_run), not sameiter(self.actions_to_run[PL]))".replace('PL', PL)]
+
+
+def plen_native(q, one, ai):
+  k = 0
+  if one not in ai:
+    return 0
+  while k < len(q) and q[k] in ai and ai[q[k]] == ai[one]:
+    k += 1
+  return k
+
+
 SAMEITER = ("a in self.action_iteration and "
             "self.action_iteration[a] == self.action_iteration[one_action]")
 
@@ -48,16 +68,125 @@ def gen_update(tier, mod):
             for stop in ((), ('it1',), ('it2',)):
               counts = {'A': cnt, 'B': 0, 'C': cnt, 'D': 1}
               c = mk_concertina(mod, q, counts, {'it1': rep, 'it2': rep}, stop)
-              def plen(q=q, one=one, c=c):
-                k = 0
-                while k < len(q) and q[k] in c.action_iteration and \
-                    c.action_iteration[q[k]] == c.action_iteration[one]:
-                  k += 1
-                return k
-              yield {'args': [one], 'self': c, 'env': {'plen': plen},
+              yield {'args': [one], 'self': c, 'env': {'plen': plen_native},
                      'show': {'queue': list(q), 'one_action': one, 'count_before': cnt,
                               'repetitions': rep, 'stop_signal_seen': list(stop)}}
 
+
+
+# ----------------------------------------------------------------------------------------------
+# RunOneAction / Run: the whole-run invariant of the queue.
+#
+#   distinct     the queue never holds an action twice
+#   disjoint     a queued action is not complete
+#   ordered      every prerequisite of the action at position k is complete, or is a member of the same
+#                iteration, or is queued at a position before k
+#   typed        a queued action with a repetition counter belongs to an iteration with a declared count
+#
+# RunOneAction pops the head, runs exactly that action through the engine (ghost log), and -- under the
+# invariant -- the head's prerequisites are complete or iteration mates at that moment.  Run keeps the
+# invariant across every step, so this holds for every action of the run, and a complete action never
+# runs again (it is not in the queue, and the queue only receives the action that has just run).
+Q = 'self.actions_to_run'
+H = 'old(self.actions_to_run)[0]'
+MATE = ("a in self.action_iteration and b in self.action_iteration and "
+        "self.action_iteration[a] == self.action_iteration[b]")
+PL1 = 'plen(self.actions_to_run[1:], self.actions_to_run[0], self.action_iteration)'
+SAMEITER1 = ("a in self.action_iteration and "
+             "self.action_iteration[a] == self.action_iteration[self.actions_to_run[0]]")
+PLEN1_AXIOMS = [
+    "implies(len(Q) > 0, 0 <= PL1 and PL1 <= len(Q) - 1)",
+    "implies(len(Q) > 0, all(sameiter1(Q[1:][k]) for k in range(PL1)))",
+    "implies(len(Q) > 0 and PL1 < len(Q) - 1, not sameiter1(Q[1:][PL1]))"]
+PLEN1_AXIOMS = [a.replace('PL1', PL1).replace('Q', Q) for a in PLEN1_AXIOMS]
+
+INV_DISTINCT = "all(all(implies(i != j, Q[i] != Q[j]) for j in range(len(Q))) for i in range(len(Q)))"
+INV_DISJOINT = "all(Q[k] not in self.complete_actions for k in range(len(Q)))"
+INV_ORDERED = ("all(all(r in self.complete_actions or mate(r, Q[k]) or any(Q[j] == r for j in range(k)) "
+               "for r in self.action_requires[Q[k]]) for k in range(len(Q)))")
+INV_TYPED = ("all(implies(Q[k] in self.action_iterations_complete, Q[k] in self.action_iteration and "
+             "self.action_iteration[Q[k]] in self.iteration_repetitions) for k in range(len(Q)))")
+INVS = [x.replace('Q', Q) for x in (INV_DISTINCT, INV_DISJOINT, INV_ORDERED, INV_TYPED)]
+
+# what RunOneAction needs of the invariant: its instances at the head of the queue
+HEAD_PRE = [
+    "all(self.actions_to_run[k] != self.actions_to_run[0] for k in range(1, len(self.actions_to_run)))",
+    "self.actions_to_run[0] not in self.complete_actions",
+    "all(r in self.complete_actions or mate(r, self.actions_to_run[0]) "
+    "for r in self.action_requires[self.actions_to_run[0]])",
+    "implies(self.actions_to_run[0] in self.action_iterations_complete, "
+    "self.actions_to_run[0] in self.action_iteration and "
+    "self.action_iteration[self.actions_to_run[0]] in self.iteration_repetitions)"]
+
+# Ghost state for the deductive tier (no run-time existence): g_inq = the set of queued actions,
+# g_pos = the position of each queued action.  Their values are *definitions*: introduced at the entry of
+# Run from "the queue holds no action twice" (for such a list the index map exists), updated at the exit of
+# RunOneAction by an explicit function of the old map.  With them the invariant needs no existential
+# quantifier (z3 and cvc5 decide none of the obligations in the `any(...)` form).
+G_LINK = ["all(self.actions_to_run[j] in self.g_inq and self.g_pos[self.actions_to_run[j]] == j "
+          "for j in range(len(self.actions_to_run)))",
+          "all(implies(b in self.g_inq, 0 <= self.g_pos[b] and self.g_pos[b] < len(self.actions_to_run) "
+          "and self.actions_to_run[self.g_pos[b]] == b) for b in Sort('str'))"]
+G_ORDERED = ("all(all(r in self.complete_actions or mate(r, Q[k]) or (r in self.g_inq and self.g_pos[r] < k) "
+             "for r in self.action_requires[Q[k]]) for k in range(len(Q)))").replace('Q', Q)
+G_INVS = G_LINK + [INVS[1], G_ORDERED, INVS[3]]
+REQUEUED = "(H not in self.complete_actions)"
+GHOST_DEFS = {
+    'self.g_inq': ('b', 'str', "b in old(self.g_inq) and (b != H or REQUEUED)"),
+    'self.g_pos': ('b', 'str',
+                   "((old(PL1) if b == H else (old(self.g_pos)[b] - 1 if old(self.g_pos)[b] <= old(PL1) "
+                   "else old(self.g_pos)[b])) if REQUEUED else old(self.g_pos)[b] - 1)"),
+}
+GHOST_DEFS = {k: (v[0], v[1], v[2].replace('REQUEUED', REQUEUED).replace('PL1', PL1).replace('H', H))
+              for k, v in GHOST_DEFS.items()}
+
+RUN_FIELDS = dict(FIELDS)
+RUN_FIELDS.update({'self.action_requires': 'dict[str,set[str]]', 'self.run_log': 'list[str]',
+                   'self.g_inq': 'set[str]', 'self.g_pos': 'dict[str,int]'})
+
+
+class LogEngine(object):
+  """Engine of the native harness: appends the payload it is given to the ghost log of its Concertina."""
+  def __init__(self, c):
+    self.c = c
+
+  def Run(self, action):
+    self.c.run_log.append(action)
+
+
+def mk_run_case(mod, queue, requires, counts, reps, complete=(), stop_its=()):
+  c = mk_concertina(mod, queue, counts, reps, stop_its, complete)
+  names = set(queue) | set(requires) | {r for rs in requires.values() for r in rs} | set(complete)
+  c.action = {a: {'name': a, 'action': {'predicate': a, 'launcher': 'none'}, 'requires': sorted(requires.get(a, ()))}
+              for a in names}
+  c.action_requires = {a: set(requires.get(a, ())) for a in names}
+  c.all_actions = set(names)
+  c.run_log = []
+  c.engine = LogEngine(c)
+  c.display_mode = 'silent'
+  return c
+
+
+def gen_run(tier, mod):
+  """Queues over two iterations {A,B}, {C,D} and plain actions X, Y with every small requirement map;
+  cases violating the invariant are skipped by the precondition (and counted as skipped)."""
+  import itertools
+  names = ['A', 'B', 'C', 'X', 'Y']
+  maxq = 3 if tier == 'quick' else 4
+  reqs = [{}, {'X': ['A']}, {'X': ['B', 'Y']}, {'A': ['Y']}, {'B': ['A'], 'A': ['B']}, {'C': ['B'], 'Y': ['X']}]
+  for n in range(0, maxq + 1):
+    for q in itertools.permutations(names, n):
+      for rq in reqs:
+        for cnt in (0, 1):
+          for rep in (1, 2, 3):
+            for done in ((), ('Y',), ('A', 'B')):
+              if set(done) & set(q):
+                continue
+              counts = {'A': cnt, 'B': cnt, 'C': 0, 'D': 0}
+              c = mk_run_case(mod, q, rq, counts, {'it1': rep, 'it2': 2}, done)
+              yield {'args': [], 'self': c, 'env': {'plen': plen_native},
+                     'show': {'queue': list(q), 'requires': rq, 'counts': counts, 'repetitions': rep,
+                              'complete': list(done)}}
 
 UNITS = [
   unit(F, 'Concertina.ActionIterationWantsToStopBySignal', external=True,
@@ -68,24 +197,22 @@ UNITS = [
        params=['one_action'], types={'one_action': 'str'}, fields=FIELDS,
        modifies=['self.action_iterations_complete', 'self.complete_actions', 'self.action_stopped',
                  'self.actions_to_run', 'self.wrench_in_gears'],
-       ufs={'plen': ([], 'int')},
+       ufs=PLEN_UF,
        spec_funcs={'sameiter': (['a'], SAMEITER)},
        requires=["one_action in self.action_iterations_complete",
                  "one_action in self.action_iteration",
                  "self.action_iteration[one_action] in self.iteration_repetitions"],
-       axioms=[
-           # plen(): length of the maximal prefix of the queue made of members of one_action's iteration
-           "0 <= plen() and plen() <= len(self.actions_to_run)",
-           "all(sameiter(self.actions_to_run[k]) for k in range(plen()))",
-           "implies(plen() < len(self.actions_to_run), not sameiter(self.actions_to_run[plen()]))"],
+       axioms=PLEN_AXIOMS, axioms_at_call=True,
        ensures=[
            # the counter of the action that ran is incremented, no other counter moves
            "self.action_iterations_complete[one_action] == old(self.action_iterations_complete[one_action]) + 1",
            "all(implies(a != one_action, a in self.action_iterations_complete and "
            "self.action_iterations_complete[a] == old(self.action_iterations_complete)[a]) "
            "for a in old(self.action_iterations_complete))",
-           # complete_actions only grows
+           "all(a in old(self.action_iterations_complete) for a in self.action_iterations_complete)",
+           # complete_actions only grows, and by nothing but the action that ran
            "old(self.complete_actions) <= self.complete_actions",
+           "all(a == one_action or a in old(self.complete_actions) for a in self.complete_actions)",
            # reaching the declared number of repetitions completes the action and leaves the queue alone
            "implies(self.action_iterations_complete[one_action] >= "
            "self.iteration_repetitions[self.action_iteration[one_action]], "
@@ -96,8 +223,8 @@ UNITS = [
            "(self.action_iterations_complete[one_action] < "
            " self.iteration_repetitions[self.action_iteration[one_action]] and "
            " self.complete_actions == old(self.complete_actions) and "
-           " self.actions_to_run == old(self.actions_to_run)[:plen()] + [one_action] + "
-           "old(self.actions_to_run)[plen():])",
+           " self.actions_to_run == old(self.actions_to_run)[:old(PL)] + [one_action] + "
+           "old(self.actions_to_run)[old(PL):])".replace('PL', PL),
            # an action is marked stopped only below its repetition count
            "implies(one_action in self.action_stopped and one_action not in old(self.action_stopped), "
            "self.action_iterations_complete[one_action] < "
@@ -106,4 +233,82 @@ UNITS = [
                           "all(sameiter(self.actions_to_run[k]) for k in range(i))"],
                   'dec': "len(self.actions_to_run) - i"}},
        native=gen_update),
+
+  unit(F, 'ConcertinaEngine.Run', external=True, params=['action'], types={'action': 'str'},
+       fields={'self.run_log': 'list[str]'}, modifies=['self.run_log'], requires=[],
+       # ghost: the engine call is recorded; the engine touches nothing of the scheduler's state
+       ensures=["self.run_log == old(self.run_log) + [action]"]),
+
+  unit(F, 'Concertina.RunOneAction', props=['C14'], params=[], fields=RUN_FIELDS,
+       modifies=['self.action_iterations_complete', 'self.complete_actions', 'self.action_stopped',
+                 'self.actions_to_run', 'self.wrench_in_gears', 'self.running_actions', 'self.run_log',
+                 'self.g_inq', 'self.g_pos'],
+       ghost_defs=GHOST_DEFS,
+       calls={'self.engine.Run': 'ConcertinaEngine.Run'}, drop_calls=['UpdateDisplay'],
+       abstract_exprs={"self.action[one_action].get('action', {})": ('payload', ['one_action'], 'str')},
+       ufs=dict(PLEN_UF, payload=(['str'], 'str')),
+       spec_funcs={'payload': (['a'], "self.action[a].get('action', {})"), 'mate': (['a', 'b'], MATE),
+                   'sameiter1': (['a'], SAMEITER1)},
+       axioms=PLEN1_AXIOMS, axioms_at_call=True,
+       requires=["len(self.actions_to_run) > 0"] + HEAD_PRE,
+       ensures=[
+           # exactly one engine call, with the payload of the action that headed the queue
+           "self.run_log == old(self.run_log) + [payload(old(self.actions_to_run)[0])]",
+           # at that moment every prerequisite of the action was complete or a member of its iteration
+           "all(r in old(self.complete_actions) or mate(r, old(self.actions_to_run)[0]) for r in self.action_requires[old(self.actions_to_run)[0]])",
+           # the action that ran was not complete before; nothing is ever un-completed; only it can complete
+           "old(self.actions_to_run)[0] not in old(self.complete_actions)",
+           "old(self.complete_actions) <= self.complete_actions",
+           "all(a == old(self.actions_to_run)[0] or a in old(self.complete_actions) for a in self.complete_actions)",
+           # an action without a repetition counter runs once: complete, the rest of the queue as it was
+           "implies(old(self.actions_to_run)[0] not in old(self.action_iterations_complete), "
+           "old(self.actions_to_run)[0] in self.complete_actions and self.actions_to_run == old(self.actions_to_run)[1:] and "
+           "self.action_iterations_complete == old(self.action_iterations_complete))",
+           # an iterated action: counter + 1, then complete (count reached or stop signal) or re-queued once
+           # right behind the members of its own iteration heading the rest of the queue
+           "implies(old(self.actions_to_run)[0] in old(self.action_iterations_complete), "
+           "self.action_iterations_complete[old(self.actions_to_run)[0]] == old(self.action_iterations_complete)[old(self.actions_to_run)[0]] + 1 and "
+           "((old(self.actions_to_run)[0] in self.complete_actions and self.actions_to_run == old(self.actions_to_run)[1:]) or "
+           " (self.complete_actions == old(self.complete_actions) and "
+           "  self.action_iterations_complete[old(self.actions_to_run)[0]] < self.iteration_repetitions[self.action_iteration[old(self.actions_to_run)[0]]] and "
+           "  self.actions_to_run == old(self.actions_to_run)[1:][:old(plen(self.actions_to_run[1:], self.actions_to_run[0], self.action_iteration))] + [old(self.actions_to_run)[0]] + "
+           "old(self.actions_to_run)[1:][old(plen(self.actions_to_run[1:], self.actions_to_run[0], self.action_iteration)):])))",
+           "all(implies(a != old(self.actions_to_run)[0], a in self.action_iterations_complete and "
+           "self.action_iterations_complete[a] == old(self.action_iterations_complete)[a]) "
+           "for a in old(self.action_iterations_complete))",
+           "all(a in old(self.action_iterations_complete) for a in self.action_iterations_complete)",
+           # the same queue statements position by position (the form the proof of Run uses)
+           "implies(old(self.actions_to_run)[0] in self.complete_actions, len(self.actions_to_run) == len(old(self.actions_to_run)) - 1 "
+           "and all(self.actions_to_run[i] == old(self.actions_to_run)[i + 1] "
+           "for i in range(len(self.actions_to_run))))",
+           "implies(old(self.actions_to_run)[0] not in self.complete_actions, "
+           "len(self.actions_to_run) == len(old(self.actions_to_run)) and "
+           "self.complete_actions == old(self.complete_actions) and "
+           "0 <= old(plen(self.actions_to_run[1:], self.actions_to_run[0], self.action_iteration)) and old(plen(self.actions_to_run[1:], self.actions_to_run[0], self.action_iteration)) <= len(old(self.actions_to_run)) - 1 and "
+           "all(self.actions_to_run[i] == (old(self.actions_to_run)[i + 1] if i < old(plen(self.actions_to_run[1:], self.actions_to_run[0], self.action_iteration)) else "
+           "(old(self.actions_to_run)[0] if i == old(plen(self.actions_to_run[1:], self.actions_to_run[0], self.action_iteration)) else old(self.actions_to_run)[i])) for i in range(len(self.actions_to_run))) and "
+           "all(mate(old(self.actions_to_run)[i + 1], old(self.actions_to_run)[0]) for i in range(old(plen(self.actions_to_run[1:], self.actions_to_run[0], self.action_iteration)))))",
+       ],
+       call_skip_ensures=[5, 6],
+       native=gen_run),
+
+  unit(F, 'Concertina.Run', props=['C14'], params=[], fields=RUN_FIELDS,
+       modifies=['self.action_iterations_complete', 'self.complete_actions', 'self.action_stopped',
+                 'self.actions_to_run', 'self.wrench_in_gears', 'self.running_actions', 'self.run_log',
+                 'self.g_inq', 'self.g_pos'],
+       drop_calls=['UpdateDisplay'], ufs=PLEN_UF,
+       spec_funcs={'mate': (['a', 'b'], MATE)},
+       requires=INVS,
+       # ghost introduction (see above): for a queue without repetitions the index map exists
+       axioms=["implies(%s, %s and %s)" % (INVS[0], G_LINK[0], G_LINK[1])],
+       ensures=["len(self.actions_to_run) == 0",
+                "old(self.complete_actions) <= self.complete_actions",
+                # everything that was queued has completed
+                "all(a in self.complete_actions for a in old(self.actions_to_run))"],
+       native_skip_axioms=True,
+       loops={0: {'inv': G_INVS + ["old(self.complete_actions) <= self.complete_actions",
+                                   "all(old(self.actions_to_run)[k] in self.complete_actions or "
+                                   "old(self.actions_to_run)[k] in self.g_inq "
+                                   "for k in range(len(old(self.actions_to_run))))"]}},
+       native=gen_run),
 ]
